@@ -542,6 +542,7 @@ func (x *Exec) applyContract(st *State, ins ssa.Instruction, t callTarget, c *ss
 	}
 	pre := st.heap.clone()
 	sc := x.specCtx(st, st.heap, pre, env)
+	sc.pkgPath = k.Pkg
 	n := 0
 	for _, r := range k.Requires {
 		for _, cj := range x.eng.cs.goals(r.E) {
@@ -634,6 +635,7 @@ func (x *Exec) applyContract(st *State, ins ssa.Instruction, t callTarget, c *ss
 		env["result"] = res.Fs[0]
 	}
 	sc2 := x.specCtx(st, st.heap, pre, env)
+	sc2.pkgPath = k.Pkg
 	x.applyGhostSets(st, k, sc2)
 	for _, en := range k.Ensures {
 		if os.Getenv("VERIF_DEBUG") != "" {
